@@ -74,7 +74,7 @@ def erase(G, key, v):
     raise ValueError(t)
 
 
-HINTS = ["default", "alt", "any"]
+HINTS = ["default", "alt", "any", "alt2"]
 
 
 def expected_for(G, v, hints):
